@@ -250,4 +250,448 @@ theorem validate_ok_iff (c : Elements) (d : DeviceInfo) : validate c d = .ok () 
     · simp [h1, h2]
   · simp [h1]
 
+/-! ## what an accepted content satisfies -/
+
+theorem pidLoop_len : ∀ (l : List (Res Bytes)) (acc res : List Nat), pidLoop l acc = .ok res → acc.length ≤ MAX_PRODUCT_IDS →
+    res.length ≤ MAX_PRODUCT_IDS ∧ acc.length ≤ res.length
+  | [], acc, res, h, ha => by
+    simp only [pidLoop, Except.ok.injEq] at h
+    subst h
+    simp [ha]
+  | r :: rest, acc, res, h, ha => by
+    unfold pidLoop at h
+    split at h
+    · simp at h
+    · split at h
+      · simp at h
+      · split at h
+        · simp at h
+        · rename_i hlt _ v _
+          have := pidLoop_len rest (v :: acc) res h (by simp only [List.length_cons]; omega)
+          simp only [List.length_cons] at this
+          omega
+
+theorem paaLoop_len : ∀ (l : List (Res Bytes)) (acc res : List Bytes), paaLoop l acc = .ok res →
+    acc.length ≤ MAX_AUTHORIZED_PAA_LIST → (∀ k ∈ acc, k.length = KEY_IDENTIFIER_LEN) →
+    res.length ≤ MAX_AUTHORIZED_PAA_LIST ∧ ∀ k ∈ res, k.length = KEY_IDENTIFIER_LEN
+  | [], acc, res, h, ha, hk => by
+    simp only [paaLoop, Except.ok.injEq] at h
+    subst h
+    exact ⟨by simpa using ha, fun k hk' => hk k (by simpa using hk')⟩
+  | r :: rest, acc, res, h, ha, hk => by
+    unfold paaLoop at h
+    split at h
+    · simp at h
+    · split at h
+      · simp at h
+      · split at h
+        · simp at h
+        · split at h
+          · simp at h
+          · rename_i hlt _ b _ hb
+            refine paaLoop_len rest (b :: acc) res h (by simp only [List.length_cons]; omega) (fun k hk' => ?_)
+            rcases List.mem_cons.mp hk' with rfl | hk'
+            · simpa using hb
+            · exact hk k hk'
+
+theorem bind_ok {α β : Type} {x : Except CdErr α} {f : α → Except CdErr β} {b : β} (h : x >>= f = .ok b) :
+    ∃ a, x = .ok a ∧ f a = .ok b := by
+  cases x with
+  | error e => simp [Bind.bind, Except.bind] at h
+  | ok a => exact ⟨a, rfl, h⟩
+
+/-- **whatever `decode` accepts is a certification declaration of format version 1** with 1..100 product ids, a
+19-octet certificate id, a defined certification type and at most 10 authorized PAA key ids of 20 octets -/
+theorem decode_sound {content : Bytes} {c : Elements} (h : decode content = .ok c) :
+    c.formatVersion = 1 ∧ 1 ≤ c.productIds.length ∧ c.productIds.length ≤ MAX_PRODUCT_IDS ∧
+    c.certificateId.length = CERTIFICATE_ID_LEN ∧ c.certificationType ≤ 2 ∧
+    c.authorizedPaa.length ≤ MAX_AUTHORIZED_PAA_LIST ∧ ∀ k ∈ c.authorizedPaa, k.length = KEY_IDENTIFIER_LEN := by
+  unfold decode at h
+  obtain ⟨s, _, h⟩ := bind_ok h
+  obtain ⟨fv, _, h⟩ := bind_ok h
+  split at h
+  · simp at h
+  · rename_i hne
+    obtain ⟨pids, hp, h⟩ := bind_ok h
+    obtain ⟨cid, hc, h⟩ := bind_ok h
+    obtain ⟨dac, _, h⟩ := bind_ok h
+    obtain ⟨paa, hpa, h⟩ := bind_ok h
+    obtain ⟨vid, _, h⟩ := bind_ok h
+    obtain ⟨dt, _, h⟩ := bind_ok h
+    obtain ⟨sl, _, h⟩ := bind_ok h
+    obtain ⟨si, _, h⟩ := bind_ok h
+    obtain ⟨vn, _, h⟩ := bind_ok h
+    obtain ⟨ct, _, h⟩ := bind_ok h
+    split at h
+    · simp at h
+    · rename_i hct
+      simp only [Pure.pure, Except.pure, Except.ok.injEq] at h
+      subst h
+      simp only
+      have hpl : 1 ≤ pids.length ∧ pids.length ≤ MAX_PRODUCT_IDS := by
+        unfold parseProductIds at hp
+        obtain ⟨e, _, hp⟩ := bind_ok hp
+        obtain ⟨seq, _, hp⟩ := bind_ok hp
+        obtain ⟨res, hres, hp⟩ := bind_ok hp
+        split at hp
+        · simp at hp
+        · simp only [Pure.pure, Except.pure, Except.ok.injEq] at hp
+          subst hp
+          have := pidLoop_len _ _ _ hres (by simp [MAX_PRODUCT_IDS])
+          omega
+      have hcl : cid.length = CERTIFICATE_ID_LEN := by
+        unfold parseCertificateId at hc
+        obtain ⟨e, _, hc⟩ := bind_ok hc
+        obtain ⟨str, _, hc⟩ := bind_ok hc
+        split at hc
+        · simp at hc
+        · rename_i hl
+          simp only [Pure.pure, Except.pure, Except.ok.injEq] at hc
+          subst hc
+          simpa using hl
+      have hpaa : paa.length ≤ MAX_AUTHORIZED_PAA_LIST ∧ ∀ k ∈ paa, k.length = KEY_IDENTIFIER_LEN := by
+        unfold parseAuthorizedPaa at hpa
+        obtain ⟨e, _, hpa⟩ := bind_ok hpa
+        split at hpa
+        · obtain ⟨seq, _, hpa⟩ := bind_ok hpa
+          exact paaLoop_len _ _ _ hpa (by simp) (fun k hk => by simp at hk)
+        · simp only [Pure.pure, Except.pure, Except.ok.injEq] at hpa
+          subst hpa
+          exact ⟨by simp, fun k hk => by simp at hk⟩
+      exact ⟨by simpa using hne, hpl.1, hpl.2, hcl, by omega, hpaa.1, hpaa.2⟩
+
+/-! ## round trip -/
+
+theorem suffixAt_at (pre post : List Value) (v : Value) (tag : Nat) (more : Bytes)
+    (hpre : ∀ x ∈ pre, ctxTagOf x ≠ some tag) (hv : v.tag = .ctx tag) :
+    suffixAt (pre ++ v :: post) tag more = encode v ++ (encodes (Values.ofList post) ++ endByte :: more) := by
+  rw [suffixAt_skip pre _ tag more hpre, suffixAt_head v post tag more hv]
+
+theorem mkUint_u16 (t : Tag) (n : Nat) (X : Bytes) (hn : n < 2 ^ 16) :
+    Tlv.u16 (encode (.leaf t (Prim.mkUint n)) ++ X) = .ok n := by
+  have hwf := mkUint_wf n (by omega)
+  rcases (mkUint_width n).2.1 (by omega) with hw | hw <;> rw [hw] at hwf ⊢
+  · exact u16_uint t _ n X (Or.inl rfl) hwf
+  · exact u16_uint t _ n X (Or.inr rfl) hwf
+
+theorem mkUint_u8 (t : Tag) (n : Nat) (X : Bytes) (hn : n < 2 ^ 8) :
+    Tlv.u8 (encode (.leaf t (Prim.mkUint n)) ++ X) = .ok n := by
+  have hw := (mkUint_width n).1 (by omega)
+  have hwf := mkUint_wf n (by omega)
+  rw [hw] at hwf ⊢
+  exact u8_uint t n X hwf
+
+theorem mkUint_u32 (t : Tag) (n : Nat) (X : Bytes) (hn : n < 2 ^ 32) :
+    Tlv.u32 (encode (.leaf t (Prim.mkUint n)) ++ X) = .ok n := by
+  obtain ⟨w, hw8, hw⟩ := (mkUint_width n).2.2 (by omega)
+  have hwf := mkUint_wf n (by omega)
+  rw [hw] at hwf ⊢
+  exact u32_uint t w n X hw8 hwf
+
+theorem pidLoop_children : ∀ (pids acc : List Nat) (X : Bytes), (∀ p ∈ pids, p < 2 ^ 16) →
+    acc.length + pids.length ≤ MAX_PRODUCT_IDS →
+    pidLoop ((childSuffixes (Values.ofList (pidValues pids)) X).map .ok) acc = .ok (acc.reverse ++ pids)
+  | [], acc, X, _, _ => by simp [pidValues, Values.ofList, childSuffixes, pidLoop]
+  | p :: rest, acc, X, hp, hl => by
+    simp only [pidValues, List.map_cons, Values.ofList, childSuffixes, pidLoop, ofRes]
+    simp only [List.length_cons] at hl
+    rw [if_neg (by omega), mkUint_u16 _ p _ (hp p (by simp))]
+    simp only
+    have := pidLoop_children rest (p :: acc) X (fun q hq => hp q (by simp [hq])) (by simp only [List.length_cons]; omega)
+    simp only [pidValues] at this
+    rw [this]
+    simp
+
+theorem paaLoop_children : ∀ (paa acc : List Bytes) (X : Bytes), (∀ k ∈ paa, k.length = KEY_IDENTIFIER_LEN) →
+    acc.length + paa.length ≤ MAX_AUTHORIZED_PAA_LIST →
+    paaLoop ((childSuffixes (Values.ofList (paaValues paa)) X).map .ok) acc = .ok (acc.reverse ++ paa)
+  | [], acc, X, _, _ => by simp [paaValues, Values.ofList, childSuffixes, paaLoop]
+  | k :: rest, acc, X, hk, hl => by
+    simp only [paaValues, List.map_cons, Values.ofList, childSuffixes, paaLoop, ofRes]
+    simp only [List.length_cons] at hl
+    have hkl := hk k (by simp)
+    have hwf : (Prim.mkStr k).wf := mkStr_wf k (by rw [hkl]; decide)
+    have h2 : ∀ Y, strOf (encode (.leaf .anon (Prim.mkStr k)) ++ Y) = .ok k := fun Y => (str_roundtrip .anon _ k Y hwf).1
+    rw [if_neg (by omega), h2]
+    simp only
+    rw [if_neg (by simp [hkl])]
+    have := paaLoop_children rest (k :: acc) X (fun q hq => hk q (by simp [hq])) (by simp only [List.length_cons]; omega)
+    simp only [paaValues] at this
+    rw [this]
+    simp
+
+theorem ofList_depth_bound : ∀ (l : List Value) (d : Nat), (∀ v ∈ l, v.depth ≤ d) → (Values.ofList l).depth ≤ d
+  | [], _, _ => by simp [Values.ofList, Values.depth]
+  | v :: rest, d, h => by
+    simp only [Values.ofList, Values.depth]
+    have h1 := h v (by simp)
+    have h2 := ofList_depth_bound rest d (fun x hx => h x (by simp [hx]))
+    omega
+
+theorem uintLeaf_ctx (t n : Nat) (ht : t < 256) (hn : n < 2 ^ 64) : CtxVal (uintLeaf t n) :=
+  ⟨t, rfl, ht, ⟨ht, mkUint_wf n hn⟩⟩
+
+theorem pidValues_wf (pids : List Nat) (h : ∀ p ∈ pids, p < 2 ^ 16) : (Values.ofList (pidValues pids)).wf := by
+  refine ofList_wf _ (fun v hv => ?_)
+  simp only [pidValues, List.mem_map] at hv
+  obtain ⟨p, hp, rfl⟩ := hv
+  exact ⟨trivial, mkUint_wf p (by have := h p hp; omega)⟩
+
+theorem paaValues_wf (paa : List Bytes) (h : ∀ k ∈ paa, k.length = KEY_IDENTIFIER_LEN) :
+    (Values.ofList (paaValues paa)).wf := by
+  refine ofList_wf _ (fun v hv => ?_)
+  simp only [paaValues, List.mem_map] at hv
+  obtain ⟨k, hk, rfl⟩ := hv
+  exact ⟨trivial, mkStr_wf k (by rw [h k hk]; decide)⟩
+
+theorem leaves_depth (l : List Value) (h : ∀ v ∈ l, ∃ t p, v = .leaf t p) : (Values.ofList l).depth ≤ 1 :=
+  ofList_depth_bound l 1 (fun v hv => by obtain ⟨t, p, rfl⟩ := h v hv; simp [Value.depth])
+
+theorem three_lt_usize : 3 < USIZE := by decide
+
+/-- the nine mandatory fields -/
+def fixedFields (c : Elements) : List Value :=
+  [uintLeaf 0 c.formatVersion, uintLeaf 1 c.vendorId,
+   .cont (.ctx 2) .array (Values.ofList (pidValues c.productIds)),
+   uintLeaf 3 c.deviceTypeId, .leaf (.ctx 4) (Prim.mkUtf8 c.certificateId),
+   uintLeaf 5 c.securityLevel, uintLeaf 6 c.securityInformation, uintLeaf 7 c.versionNumber,
+   uintLeaf 8 c.certificationType]
+
+theorem fieldList_eq (c : Elements) : fieldList c = fixedFields c ++ optFields c := rfl
+
+theorem pidValues_depth (pids : List Nat) : (Values.ofList (pidValues pids)).depth ≤ 1 :=
+  leaves_depth _ (fun v hv => by
+    simp only [pidValues, List.mem_map] at hv
+    obtain ⟨p, _, rfl⟩ := hv
+    exact ⟨_, _, rfl⟩)
+
+theorem paaValues_depth (paa : List Bytes) : (Values.ofList (paaValues paa)).depth ≤ 1 :=
+  leaves_depth _ (fun v hv => by
+    simp only [paaValues, List.mem_map] at hv
+    obtain ⟨p, _, rfl⟩ := hv
+    exact ⟨_, _, rfl⟩)
+
+theorem fixedFields_ok (c : Elements) (h : c.Legal) : ∀ v ∈ fixedFields c, CtxVal v ∧ v.depth ≤ 2 := by
+  obtain ⟨hfv, hvid, hp1, hp2, hpr, hdt, hcl, hcu, hsl, hsi, hvn, hct, hdac, hpa1, hpa2⟩ := h
+  have hd := pidValues_depth c.productIds
+  simp only [fixedFields, List.forall_mem_cons, List.not_mem_nil, false_imp_iff, implies_true, and_true]
+  refine ⟨⟨uintLeaf_ctx 0 _ (by omega) (by omega), by simp [uintLeaf, Value.depth]⟩,
+    ⟨uintLeaf_ctx 1 _ (by omega) (by omega), by simp [uintLeaf, Value.depth]⟩,
+    ⟨⟨2, rfl, by omega, ⟨by simp [Tag.wf], pidValues_wf _ hpr⟩⟩, by simp only [Value.depth]; omega⟩,
+    ⟨uintLeaf_ctx 3 _ (by omega) (by omega), by simp [uintLeaf, Value.depth]⟩,
+    ⟨⟨4, rfl, by omega, ⟨by simp [Tag.wf], mkUtf8_wf _ (by rw [hcl]; decide) hcu⟩⟩, by simp [Value.depth]⟩,
+    ⟨uintLeaf_ctx 5 _ (by omega) (by omega), by simp [uintLeaf, Value.depth]⟩,
+    ⟨uintLeaf_ctx 6 _ (by omega) (by omega), by simp [uintLeaf, Value.depth]⟩,
+    ⟨uintLeaf_ctx 7 _ (by omega) (by omega), by simp [uintLeaf, Value.depth]⟩,
+    ⟨uintLeaf_ctx 8 _ (by omega) (by omega), by simp [uintLeaf, Value.depth]⟩⟩
+
+theorem optFields_ok (c : Elements) (h : c.Legal) : ∀ v ∈ optFields c, CtxVal v ∧ v.depth ≤ 2 := by
+  obtain ⟨hfv, hvid, hp1, hp2, hpr, hdt, hcl, hcu, hsl, hsi, hvn, hct, hdac, hpa1, hpa2⟩ := h
+  have hd := paaValues_depth c.authorizedPaa
+  intro v hv
+  simp only [optFields, List.mem_append] at hv
+  rcases hv with hv | hv
+  · cases hd' : c.dacOrigin with
+    | none => simp [hd'] at hv
+    | some x =>
+      obtain ⟨a, b⟩ := x
+      have := hdac _ hd'
+      simp only [hd', List.mem_cons, List.not_mem_nil, or_false] at hv
+      rcases hv with rfl | rfl
+      · exact ⟨uintLeaf_ctx 9 _ (by omega) (by omega), by simp [uintLeaf, Value.depth]⟩
+      · exact ⟨uintLeaf_ctx 10 _ (by omega) (by omega), by simp [uintLeaf, Value.depth]⟩
+  · split at hv
+    · simp at hv
+    · simp only [List.mem_cons, List.not_mem_nil, or_false] at hv
+      subst hv
+      exact ⟨⟨11, rfl, by omega, ⟨by simp [Tag.wf], paaValues_wf _ hpa2⟩⟩, by simp only [Value.depth]; omega⟩
+
+theorem optFields_tags (c : Elements) (tag : Nat) (ht : tag ≤ 8) : ∀ v ∈ optFields c, ctxTagOf v ≠ some tag := by
+  intro v hv
+  simp only [optFields, List.mem_append] at hv
+  rcases hv with hv | hv
+  · cases hd' : c.dacOrigin with
+    | none => simp [hd'] at hv
+    | some x =>
+      obtain ⟨a, b⟩ := x
+      simp only [hd', List.mem_cons, List.not_mem_nil, or_false] at hv
+      rcases hv with rfl | rfl <;> simp [ctxTagOf, uintLeaf, Value.tag] <;> omega
+  · split at hv
+    · simp at hv
+    · simp only [List.mem_cons, List.not_mem_nil, or_false] at hv
+      subst hv
+      simp [ctxTagOf, Value.tag]; omega
+
+theorem structOf_encode (c : Elements) :
+    structOf (encodeElements c) = .ok (encodes (Values.ofList (fieldList c)) ++ [endByte]) := by
+  have := enter_cont .struct .anon (Values.ofList (fieldList c)) []
+  simpa [TlvSchema.enter, encodeElements, toValue] using this
+
+/-- **CD content round trip**: the TLV structure the model encoder writes for legal elements (Matter 6.3.1 layout,
+shortest-form integers, optional DAC-origin pair and PAA list) decodes to exactly these elements -/
+theorem decode_encode (c : Elements) (h : c.Legal) : decode (encodeElements c) = .ok c := by
+  have hfo := fixedFields_ok c h
+  have hoo := optFields_ok c h
+  obtain ⟨hfv, hvid, hp1, hp2, hpr, hdt, hcl, hcu, hsl, hsi, hvn, hct, hdac, hpa1, hpa2⟩ := h
+  have hall : ∀ v ∈ fieldList c, CtxVal v ∧ v.depth ≤ 2 := by
+    intro v hv
+    rw [fieldList_eq, List.mem_append] at hv
+    rcases hv with hv | hv
+    · exact hfo v hv
+    · exact hoo v hv
+  have hdep : (Values.ofList (fieldList c)).depth + 1 < USIZE := by
+    have := ofList_depth_bound (fieldList c) 2 (fun v hv => (hall v hv).2)
+    have := three_lt_usize
+    omega
+  have hfind : ∀ tag, findCtx (encodes (Values.ofList (fieldList c)) ++ [endByte]) tag
+      = .ok (suffixAt (fieldList c) tag []) := fun tag => findCtx_fields _ tag [] (fun v hv => (hall v hv).1) hdep
+  have hfix : ∀ (pre post : List Value) (v : Value) (tag : Nat), fixedFields c = pre ++ v :: post →
+      (∀ x ∈ pre, ctxTagOf x ≠ some tag) → v.tag = .ctx tag →
+      findCtx (encodes (Values.ofList (fieldList c)) ++ [endByte]) tag
+        = .ok (encode v ++ (encodes (Values.ofList (post ++ optFields c)) ++ [endByte])) := by
+    intro pre post v tag hsplit hpre hv
+    rw [hfind, fieldList_eq, hsplit, List.append_assoc, List.cons_append]
+    exact congrArg Res.ok (suffixAt_at pre (post ++ optFields c) v tag [] hpre hv)
+  have hopt : ∀ tag, 9 ≤ tag → findCtx (encodes (Values.ofList (fieldList c)) ++ [endByte]) tag
+      = .ok (suffixAt (optFields c) tag []) := by
+    intro tag ht
+    rw [hfind, fieldList_eq]
+    refine congrArg Res.ok (suffixAt_skip _ _ tag [] (fun x hx => ?_))
+    simp only [fixedFields, List.mem_cons, List.not_mem_nil, or_false] at hx
+    rcases hx with rfl | rfl | rfl | rfl | rfl | rfl | rfl | rfl | rfl <;>
+      simp [ctxTagOf, uintLeaf, Value.tag] <;> omega
+  -- the individual lookups
+  have h0 : uintAt Tlv.u16 (encodes (Values.ofList (fieldList c)) ++ [endByte]) 0 = .ok c.formatVersion := by
+    unfold uintAt
+    rw [hfix [] _ (uintLeaf 0 c.formatVersion) 0 rfl (by simp) rfl]
+    simp only [ofRes, Bind.bind, Except.bind, uintLeaf]
+    rw [mkUint_u16 _ _ _ (by omega)]
+  have h1 : uintAt Tlv.u16 (encodes (Values.ofList (fieldList c)) ++ [endByte]) 1 = .ok c.vendorId := by
+    unfold uintAt
+    rw [hfix [uintLeaf 0 c.formatVersion] _ (uintLeaf 1 c.vendorId) 1 rfl (by simp [ctxTagOf, uintLeaf, Value.tag]) rfl]
+    simp only [ofRes, Bind.bind, Except.bind, uintLeaf]
+    rw [mkUint_u16 _ _ _ hvid]
+  have h3 : uintAt Tlv.u32 (encodes (Values.ofList (fieldList c)) ++ [endByte]) 3 = .ok c.deviceTypeId := by
+    unfold uintAt
+    rw [hfix [uintLeaf 0 c.formatVersion, uintLeaf 1 c.vendorId,
+        .cont (.ctx 2) .array (Values.ofList (pidValues c.productIds))] _ (uintLeaf 3 c.deviceTypeId) 3 rfl
+      (by simp [ctxTagOf, uintLeaf, Value.tag]) rfl]
+    simp only [ofRes, Bind.bind, Except.bind, uintLeaf]
+    rw [mkUint_u32 _ _ _ hdt]
+  have h5 : uintAt Tlv.u8 (encodes (Values.ofList (fieldList c)) ++ [endByte]) 5 = .ok c.securityLevel := by
+    unfold uintAt
+    rw [hfix [uintLeaf 0 c.formatVersion, uintLeaf 1 c.vendorId,
+        .cont (.ctx 2) .array (Values.ofList (pidValues c.productIds)), uintLeaf 3 c.deviceTypeId,
+        .leaf (.ctx 4) (Prim.mkUtf8 c.certificateId)] _ (uintLeaf 5 c.securityLevel) 5 rfl
+      (by simp [ctxTagOf, uintLeaf, Value.tag]) rfl]
+    simp only [ofRes, Bind.bind, Except.bind, uintLeaf]
+    rw [mkUint_u8 _ _ _ hsl]
+  have h6 : uintAt Tlv.u16 (encodes (Values.ofList (fieldList c)) ++ [endByte]) 6 = .ok c.securityInformation := by
+    unfold uintAt
+    rw [hfix [uintLeaf 0 c.formatVersion, uintLeaf 1 c.vendorId,
+        .cont (.ctx 2) .array (Values.ofList (pidValues c.productIds)), uintLeaf 3 c.deviceTypeId,
+        .leaf (.ctx 4) (Prim.mkUtf8 c.certificateId), uintLeaf 5 c.securityLevel] _
+      (uintLeaf 6 c.securityInformation) 6 rfl (by simp [ctxTagOf, uintLeaf, Value.tag]) rfl]
+    simp only [ofRes, Bind.bind, Except.bind, uintLeaf]
+    rw [mkUint_u16 _ _ _ hsi]
+  have h7 : uintAt Tlv.u16 (encodes (Values.ofList (fieldList c)) ++ [endByte]) 7 = .ok c.versionNumber := by
+    unfold uintAt
+    rw [hfix [uintLeaf 0 c.formatVersion, uintLeaf 1 c.vendorId,
+        .cont (.ctx 2) .array (Values.ofList (pidValues c.productIds)), uintLeaf 3 c.deviceTypeId,
+        .leaf (.ctx 4) (Prim.mkUtf8 c.certificateId), uintLeaf 5 c.securityLevel, uintLeaf 6 c.securityInformation] _
+      (uintLeaf 7 c.versionNumber) 7 rfl (by simp [ctxTagOf, uintLeaf, Value.tag]) rfl]
+    simp only [ofRes, Bind.bind, Except.bind, uintLeaf]
+    rw [mkUint_u16 _ _ _ hvn]
+  have h8 : uintAt Tlv.u8 (encodes (Values.ofList (fieldList c)) ++ [endByte]) 8 = .ok c.certificationType := by
+    unfold uintAt
+    rw [hfix [uintLeaf 0 c.formatVersion, uintLeaf 1 c.vendorId,
+        .cont (.ctx 2) .array (Values.ofList (pidValues c.productIds)), uintLeaf 3 c.deviceTypeId,
+        .leaf (.ctx 4) (Prim.mkUtf8 c.certificateId), uintLeaf 5 c.securityLevel, uintLeaf 6 c.securityInformation,
+        uintLeaf 7 c.versionNumber] [] (uintLeaf 8 c.certificationType) 8 rfl
+      (by simp [ctxTagOf, uintLeaf, Value.tag]) rfl]
+    simp only [ofRes, Bind.bind, Except.bind, uintLeaf]
+    rw [mkUint_u8 _ _ _ (by omega)]
+  have hpid : parseProductIds (encodes (Values.ofList (fieldList c)) ++ [endByte]) = .ok c.productIds := by
+    unfold parseProductIds
+    rw [hfix [uintLeaf 0 c.formatVersion, uintLeaf 1 c.vendorId] _
+      (.cont (.ctx 2) .array (Values.ofList (pidValues c.productIds))) 2 rfl (by simp [ctxTagOf, uintLeaf, Value.tag]) rfl]
+    have he := enter_cont .array (.ctx 2) (Values.ofList (pidValues c.productIds))
+    simp only [TlvSchema.enter] at he
+    simp only [ofRes, Bind.bind, Except.bind, he]
+    rw [elements_encodes _ _ (pidValues_wf _ hpr) (by have := pidValues_depth c.productIds; have := three_lt_usize; omega),
+      show pidLoop _ [] = .ok c.productIds from by simpa using pidLoop_children c.productIds [] _ hpr (by simpa using hp2)]
+    simp only
+    split
+    · omega
+    · rfl
+  have hcid : parseCertificateId (encodes (Values.ofList (fieldList c)) ++ [endByte]) = .ok c.certificateId := by
+    unfold parseCertificateId
+    rw [hfix [uintLeaf 0 c.formatVersion, uintLeaf 1 c.vendorId,
+        .cont (.ctx 2) .array (Values.ofList (pidValues c.productIds)), uintLeaf 3 c.deviceTypeId] _
+      (.leaf (.ctx 4) (Prim.mkUtf8 c.certificateId)) 4 rfl (by simp [ctxTagOf, uintLeaf, Value.tag]) rfl]
+    have hu : ∀ Y, utf8Of (encode (.leaf (.ctx 4) (Prim.mkUtf8 c.certificateId)) ++ Y) = .ok c.certificateId :=
+      fun Y => utf8_roundtrip _ _ _ Y (mkUtf8_wf _ (by rw [hcl]; decide) hcu)
+    simp only [ofRes, Bind.bind, Except.bind, hu]
+    rw [if_neg (by simp [hcl])]
+    rfl
+  have hdacv : parseDacOrigin (encodes (Values.ofList (fieldList c)) ++ [endByte]) = .ok c.dacOrigin := by
+    unfold parseDacOrigin
+    rw [hopt 9 (by omega), hopt 10 (by omega)]
+    cases hd' : c.dacOrigin with
+    | none =>
+      have e9 : suffixAt (optFields c) 9 [] = [] := by
+        simp only [optFields, hd', List.nil_append]
+        split <;> simp [suffixAt, ctxTagOf, Value.tag]
+      have e10 : suffixAt (optFields c) 10 [] = [] := by
+        simp only [optFields, hd', List.nil_append]
+        split <;> simp [suffixAt, ctxTagOf, Value.tag]
+      simp [ofRes, Bind.bind, Except.bind, e9, e10, Pure.pure, Except.pure]
+    | some x =>
+      obtain ⟨a, b⟩ := x
+      have hab := hdac _ hd'
+      have e9 : ∃ Y, suffixAt (optFields c) 9 [] = encode (.leaf (.ctx 9) (Prim.mkUint a)) ++ Y := by
+        simp only [optFields, hd', List.cons_append, List.nil_append, suffixAt, ctxTagOf, uintLeaf, Value.tag, if_true]
+        exact ⟨_, rfl⟩
+      have e10 : ∃ Y, suffixAt (optFields c) 10 [] = encode (.leaf (.ctx 10) (Prim.mkUint b)) ++ Y := by
+        simp only [optFields, hd', List.cons_append, List.nil_append, suffixAt, ctxTagOf, uintLeaf, Value.tag]
+        simp only [Option.some.injEq, show (9 : Nat) ≠ 10 by decide, if_false, if_true]
+        exact ⟨_, rfl⟩
+      obtain ⟨Y9, e9⟩ := e9
+      obtain ⟨Y10, e10⟩ := e10
+      have hne9 : (encode (.leaf (.ctx 9) (Prim.mkUint a)) ++ Y9).isEmpty = false := by
+        simp [encode, header]
+      have hne10 : (encode (.leaf (.ctx 10) (Prim.mkUint b)) ++ Y10).isEmpty = false := by
+        simp [encode, header]
+      simp only [ofRes, Bind.bind, Except.bind, e9, e10, hne9, hne10, ne_eq, not_true_eq_false, if_false,
+        Bool.not_false, if_true, mkUint_u16 _ a _ hab.1, mkUint_u16 _ b _ hab.2, Pure.pure, Except.pure]
+  have hpaa : parseAuthorizedPaa (encodes (Values.ofList (fieldList c)) ++ [endByte]) = .ok c.authorizedPaa := by
+    unfold parseAuthorizedPaa
+    rw [hopt 11 (by omega)]
+    by_cases hem : c.authorizedPaa = []
+    · have e11 : suffixAt (optFields c) 11 [] = [] := by
+        simp only [optFields, hem, if_true, List.append_nil]
+        cases c.dacOrigin with
+        | none => rfl
+        | some x => simp [suffixAt, ctxTagOf, uintLeaf, Value.tag]
+      simp [ofRes, Bind.bind, Except.bind, e11, hem, Pure.pure, Except.pure]
+    · have e11 : suffixAt (optFields c) 11 [] =
+          encode (.cont (.ctx 11) .array (Values.ofList (paaValues c.authorizedPaa))) ++ (encodes .nil ++ [endByte]) := by
+        simp only [optFields, hem, if_false]
+        cases c.dacOrigin with
+        | none => simp [suffixAt, ctxTagOf, Value.tag, Values.ofList]
+        | some x => simp [suffixAt, ctxTagOf, uintLeaf, Value.tag, Values.ofList]
+      have he := enter_cont .array (.ctx 11) (Values.ofList (paaValues c.authorizedPaa))
+      simp only [TlvSchema.enter] at he
+      have hne : (encode (.cont (.ctx 11) .array (Values.ofList (paaValues c.authorizedPaa))) ++ (encodes .nil ++ [endByte])).isEmpty = false := by
+        simp [encode, header]
+      simp only [ofRes, Bind.bind, Except.bind, e11, hne, Bool.not_false, if_true, he]
+      rw [elements_encodes _ _ (paaValues_wf _ hpa2) (by have := paaValues_depth c.authorizedPaa; have := three_lt_usize; omega),
+        show paaLoop _ [] = .ok c.authorizedPaa from by simpa using paaLoop_children c.authorizedPaa [] _ hpa2 (by simpa using hpa1)]
+  unfold decode
+  rw [structOf_encode]
+  simp only [ofRes, Bind.bind, Except.bind, h0, h1, h3, h5, h6, h7, h8, hpid, hcid, hdacv, hpaa]
+  rw [if_neg (by simp [hfv]), if_neg (by omega)]
+  rfl
+
+
 end Codec.Cd
